@@ -366,7 +366,19 @@ func genUnit(t *rapid.T, allowSpace bool) string {
 }
 
 func genBits(t *rapid.T) uint64 {
-	switch rapid.IntRange(0, 11).Draw(t, "vk") {
+	switch rapid.IntRange(0, 12).Draw(t, "vk") {
+	case 10:
+		// a short decimal mantissa times a power of ten just beyond the exactly representable
+		// ones (10^23 .. 10^37), or a value in the upper half of the subnormal range
+		if rapid.Bool().Draw(t, "subn") {
+			return rapid.Uint64Range(1<<51, 1<<52+4).Draw(t, "subnbits")
+		}
+		m := rapid.Int64Range(1, 999999999999999).Draw(t, "mant")
+		f, _ := strconv.ParseFloat(strconv.FormatInt(m, 10)+"e"+strconv.Itoa(rapid.IntRange(15, 45).Draw(t, "exp10")), 64)
+		if rapid.Bool().Draw(t, "negm") {
+			f = -f
+		}
+		return math.Float64bits(f)
 	case 0:
 		return 0
 	case 1:
